@@ -97,8 +97,9 @@ fn revision_queue_case<const REVS: usize, const K: usize>() {
     }
     // (that an old enough value *is* judged stale is not demanded by C09 -- a collector that keeps more is fine --
     // it only appears as a reachability witness below)
-    kani::cover!(stale);
-    kani::cover!(primed && !stale);
+    // input-space witnesses: a probe that the reference model allows to be stale / requires to be live
+    kani::cover!(primed && x < distinct[REVS - 1]);
+    kani::cover!(primed && x >= distinct[REVS - 1]);
     kani::cover!(!primed && n > 0 || REVS == 1);
     std::mem::forget(q);
 }
@@ -353,8 +354,8 @@ fn lru_scan_case<const N: usize>() {
             assert!(std::ptr::eq(slot.entry, LruEntry::ptr_from_value(value)));
         }
     }
-    kani::cover!(found.is_some());
-    kani::cover!(found.is_none() && recorded > 1);
+    kani::cover!(tail_stale && gens[N - 1] != u32::MAX);
+    kani::cover!(!tail_stale && recorded > 1);
     std::mem::forget(shard);
     std::mem::forget(values);
     std::mem::forget(ing);
